@@ -132,6 +132,7 @@ func (fs *ReaderFS) readErr(r io.Reader) error {
 
 	var wg sync.WaitGroup
 	errs := make(chan error, 1)
+	seen := make(map[string]bool) // resolved names of the entries so far
 	for {
 		select {
 		case err := <-errs:
@@ -144,6 +145,15 @@ func (fs *ReaderFS) readErr(r io.Reader) error {
 		}
 		if err != nil {
 			return fserrors.WithMessage(err, "next tar file")
+		}
+		if name := resolvePath(header.Name); seen[name] {
+			// a repeated member, e.g. an updated copy appended with 'tar -r'. the earlier copy may still be on its way in the background,
+			// let it finish first: two writers on one file leave a mix of both, and the later copy is the one to keep
+			if err := waitWriters(&wg, errs); err != nil {
+				return err
+			}
+		} else {
+			seen[name] = true
 		}
 		err = fs.readProcessFile(header, archive, &wg, errs, cachedMkdirAll, smallPool, bigPool)
 		if err != nil {
@@ -161,6 +171,26 @@ func (fs *ReaderFS) readErr(r io.Reader) error {
 		return err
 	case <-done:
 		// an error can arrive together with the completion. make sure it's not dropped when this case is picked
+		select {
+		case err := <-errs:
+			return err
+		default:
+			return nil
+		}
+	}
+}
+
+// waitWriters waits until the background writers counted by 'wg' are done, or one of them reports an error
+func waitWriters(wg *sync.WaitGroup, errs <-chan error) error {
+	done := make(chan struct{})
+	go func() {
+		wg.Wait()
+		close(done)
+	}()
+	select {
+	case err := <-errs:
+		return err
+	case <-done:
 		select {
 		case err := <-errs:
 			return err
